@@ -54,20 +54,26 @@ def build(r, cid, tier, kind):
         ops.append("O:c")
     small_wire = kind in ("all-splits", "bytewise")
     # how the relays cut the bytes
-    def frag():
+    def frag(large=True):
+        """fragment sizes, used cyclically by the relay; 0 = all the rest.  Tiny pieces over a large wire would
+        make the run quadratic (every piece re-scans the carried partial frame), so after a few tiny pieces that
+        cut the first headers the rest is delivered in pieces of >= 1000 bytes"""
         if kind == "bytewise":
             return "1"
         c = r.random()
-        if c < 0.25:
+        if c < 0.2:
             return "-"
         if c < 0.5:
-            return r.choice(["3,4", "7", "6,1", "2,5,1,7", "8,6"])
-        if c < 0.8:
-            return ",".join(str(r.choice([1, 5, 13, 100, 1000, 4096, 8192, 65542, 70000])) for _ in range(r.randint(1, 4)))
-        return str(r.choice([1000, 4096, 16384, 65535, 65543]))
+            return r.choice(["3,4,0", "7,0", "6,1,6,1,0", "2,5,1,7,3,3,0", "8,6,0", "1,1,1,1,1,1,1,1,0"])
+        tail = r.choice([0, 1000, 4096, 8192, 16384, 65535, 65542, 65543, 70000])
+        head = [str(r.choice([1, 5, 13, 100, 1000, 4096])) for _ in range(r.randint(0, 3))]
+        if tail == 0 or not head:
+            return ",".join(head + [str(tail)]) if (head or tail) else "-"
+        # cyclic use: keep every size >= 1000 when there is no terminating 0
+        return ",".join([h for h in head if int(h) >= 1000] + [str(tail)])
     cut_header = False
     fr = frag()
-    if fr in ("1", "3,4", "7", "6,1", "2,5,1,7", "8,6") or fr.startswith("1,") or fr.startswith("5,"):
+    if fr != "-" and int(fr.split(",")[0]) in (1, 2, 3, 5, 6):
         cut_header = True
     ops.append("X:c:" + fr)
     ops.append("N:s")
